@@ -8,6 +8,16 @@ NOT_APPLICABLE = {("C%02d" % i): _PENDING for i in range(1, 21)}
 NODE_NOTE = ("Trusted: Coq kernel + vm_compute; simulator (scheduler/network re-implementation, state dump), boolean equalities; "
              "Not in the model: real sockets/timers/goroutine interleavings, I/O errors.")
 TEXT = {
+ "C20": {
+  "level": "Machine-checked proof (Coq, no axioms) on a small model of the identity handshake (getConn/replyRPC/handleConn), the lock file and "
+           "SetIdentity: for every history in which the adversary decides which listener answers behind each address, requests are processed only by "
+           "the intended (cluster,node), dialers keep only verified connections, the lock is exclusive, a set identity is immutable. Tied to the "
+           "code by driving the real connPool and server.handleConn over pipes for all identity pairs of a small domain plus random 64-bit ones, "
+           "and by concurrent lockDir / SetIdentity runs on real directories.",
+  "design_ref": "DESIGN.md 4.5, 5 (C20)",
+  "note": "Trusted: Coq kernel, harness. Assumed: atomic link(2). Not modelled: a client that does not use the library's connection pool.",
+  "technique": "Coq proof on handshake/lock state machines + differential execution of the real pool/server code",
+ },
  "C14": {
   "level": "Machine-checked proof (Coq, no axioms) on a crash model of the segmented log in which every operation is the program-ordered list of "
            "file-system primitives it issues (create, size, store entry, store header, msync, unlink) and the disk is kept as page-cache image and "
